@@ -66,11 +66,39 @@ class AV(object):
 
 
 class Ctx(object):
-    def __init__(self, interp, st, fr=None, old=None):
+    def __init__(self, interp, st, fr=None, old=None, mode='apply'):
         self.interp = interp
         self.st = st
         self.fr = fr
         self.old = old
+        self.mode = mode
+        self._wit = {}
+
+    def witness(self, hint, shape, kind='int'):
+        """An existential witness of a postcondition.  While verifying the body it is
+        taken from the implementation's local variable `hint` (an array of the right
+        rank); at call sites it is a fresh uninterpreted array (existential elimination)."""
+        if hint in self._wit:
+            return self._wit[hint]
+        v = None
+        if self.mode == 'verify':
+            cand = self.st.env.get(hint)
+            if cand is not None and is_array(cand) and not isinstance(cand, Masked) and len(npm.shape_of(self.st, cand)) == len(shape):
+                v = cand
+            else:
+                for nm, cand in self.st.env.items():
+                    if is_array(cand) and not isinstance(cand, Masked):
+                        try:
+                            sh, _, kd = npm.info(self.st, cand)
+                        except Exception:
+                            continue
+                        if (kd == kind or (kd, kind) in (('nat', 'int'), ('int', 'nat'))) and len(sh) == len(shape):
+                            v = cand
+                            break
+        if v is None:
+            v = self.fresh_array('wit_' + hint, shape, kind)
+        self._wit[hint] = v
+        return v
 
     # --- symbols
     def real(self, name):
@@ -123,8 +151,8 @@ class Ctx(object):
         return self.st.heap[obj.addr].cls
 
     # --- logic
-    def forall(self, ranges, fn, name=None):
-        return Forall(ranges, fn, name)
+    def forall(self, ranges, fn, name=None, lazy=False):
+        return Forall(ranges, fn, name, lazy)
 
     def Sum(self, n, fn, opaque=False):
         if isinstance(n, int) and n <= 8:
@@ -262,7 +290,8 @@ class Contract(object):
         res = self.result(c, Args(bound))
         res = st.box(res)
         post = self.ensures(c, Args(bound), res, Ctx(interp, old_st, fr))
-        st.assume(list(post.values()))
+        # derived clauses follow from the others: not assumed again (keeps queries small)
+        st.assume([f for k, f in post.items() if k not in self.derived])
         return res
 
     # ------------------------------------------------------------------
@@ -293,7 +322,7 @@ class Contract(object):
         sn = short_name(self.name)
         n_paths = {'return': 0, 'raise': 0}
         for fs in finals:
-            fc = Ctx(interp, fs, fr, old=Ctx(interp, old_st, fr))
+            fc = Ctx(interp, fs, fr, old=Ctx(interp, old_st, fr), mode='verify')
             rz = self.raises(Ctx(interp, old_st.fork(), fr), Args(args))
             if fs.status == 'return':
                 n_paths['return'] += 1
